@@ -1,8 +1,10 @@
 (* C16 — Printed decay-mode tables show every mode once, correctly ordered and scaled.
-   Model: Dec/Print.v.  The 7-significant-digit text of each number is CPython's; the model carries the
-   exact value (checked against the printed text by the correspondence). *)
+   Model: Dec/Print.v (rows, order, scaling over exact rationals) and Dec/Fmt7.v ("{:.7g}": seven significant digits,
+   correctly rounded, ties to even, fixed / exponent notation, trailing zeros removed).  The float arithmetic before the
+   formatting (float(literal), sum, division) is CPython's: the check compares the printed text with the model's text
+   for the exact value and for the value moved by 2^-46 either way. *)
 From Coq Require Import String List Bool ZArith QArith Permutation.
-From DL Require Import Lib.Val Dec.Print Dec.PrintProofs.
+From DL Require Import Lib.Val Dec.Print Dec.PrintProofs Dec.Num Dec.Fmt7 Dec.Fmt7Proofs.
 Import ListNotations.
 Close Scope Q_scope.
 Open Scope string_scope.
@@ -53,5 +55,28 @@ Example C16_example :
         (Some [{| p_bf := (1#2)%Q; p_fs := ["a"]; p_photos := false; p_model := "PHSP"; p_params := [] |};
                {| p_bf := (1#5)%Q; p_fs := ["b"]; p_photos := false; p_model := "PHSP"; p_params := [] |};
                {| p_bf := (3#10)%Q; p_fs := ["c"]; p_photos := false; p_model := "PHSP"; p_params := [] |}])))
-  = "[[{""q"":[2,5]},""   b""],[{""q"":[3,5]},""   c""],[{""q"":[1,1]},""   a""]]".
+  = "[[{""q"":[2,5]},""   b"",[""0.4"",""0.4"",""0.4""]],[{""q"":[3,5]},""   c"",[""0.6"",""0.6"",""0.6""]],[{""q"":[1,1]},""   a"",[""1"",""1"",""1""]]]".
 Proof. vm_compute. reflexivity. Qed.
+
+(* ------------------------------------------------------------------ "{:.7g}": the number as shown *)
+(* seven significant digits, correctly rounded: for x = a/b > 0 the digits n and the exponent e chosen satisfy 10^6 <= n < 10^7 and
+   n (times 10 when rounding carried into an eighth digit) is x * 10^(6-e0) rounded to the nearest integer — within half a unit of the
+   seventh digit (e0: the decimal exponent of x, scaled a b e0 = (p, q) is that product as a fraction) *)
+Theorem C16_seven_digits_correctly_rounded : forall a b n e, (0 < a)%Z -> (0 < b)%Z -> sci7 a b = Some (n, e) ->
+  (10 ^ 6 <= n < 10 ^ 7)%Z /\
+  exists e0 p q c, scaled a b e0 = (p, q) /\ (0 < q)%Z /\ (10 ^ 6 * q <= p < 10 ^ 7 * q)%Z /\
+                   (c = 1 \/ c = 10)%Z /\ e = (e0 + (if (c =? 1)%Z then 0 else 1))%Z /\ (2 * Z.abs (p - q * (n * c)) <= q)%Z.
+Proof. exact sci7_spec. Qed.
+Print Assumptions C16_seven_digits_correctly_rounded.
+
+(* the text printed for (n, e) — fixed or exponent notation, trailing zeros removed — is a numeric literal of the .dec grammar
+   (Dec/Num.v, the reader C01 uses) and its value is exactly n * 10^(e-6) *)
+Theorem C16_shown_text_denotes_the_rounded_value : forall n e, (10 ^ 6 <= n < 10 ^ 7)%Z -> (-1000 < e < 1000)%Z ->
+  is_num (fmt_sci n e) = true /\ (numq (fmt_sci n e) == inject_Z n * pow10 (e - 6))%Q.
+Proof. exact fmt_sci_value. Qed.
+Print Assumptions C16_shown_text_denotes_the_rounded_value.
+
+Example C16_g7_examples :
+  fmt_g7 (1 # 2) = "0.5" /\ fmt_g7 (750469 # 10000000) = "0.0750469" /\ fmt_g7 (1 # 100000) = "1e-05" /\
+  fmt_g7 (99999995 # 10) = "1e+07" /\ fmt_g7 (12345675 # 10) = "1234568" /\ fmt_g7 (12345665 # 10) = "1234566" /\ fmt_g7 0 = "0".
+Proof. vm_compute. repeat split. Qed.
